@@ -70,7 +70,22 @@ func hostileFields(t *Tape, seq int, sender, target string) (typ string, fs []Fi
 	groups := [][2]int{{146, 55}, {267, 269}, {268, 269}, {627, 628}, {384, 372}, {454, 455}, {711, 311}, {555, 600}}
 	n := t.Draw(8)
 	for i := 0; i < n; i++ {
-		switch t.Pick(4, 4, 2, 2, 2, 2, 2, 2, 2, 1, 1) {
+		switch t.Pick(4, 4, 2, 2, 2, 2, 2, 2, 2, 1, 1, 3) {
+		case 11: // the text of a group counter tag ahead of the genuine group, not at a field start
+			g := groups[t.Draw(len(groups))]
+			switch t.Draw(3) {
+			case 0:
+				fs = append(fs, Field{Tag: "1" + itoa(g[0]), Val: itoa(t.Draw(9))}) // a longer tag that ends with it
+			case 1:
+				fs = append(fs, F(553, "u"+itoa(g[0])+"=x")) // inside a free-text value
+			default:
+				fs = append(fs, F(58, itoa(g[0])+"="+itoa(g[0])+"="))
+			}
+			k := 1 + t.Draw(2)
+			fs = append(fs, FI(g[0], k))
+			for j := 0; j < k; j++ {
+				fs = append(fs, F(g[1], word(t)))
+			}
 		case 0: // ordinary field of some template
 			fs = append(fs, F([]int{112, 108, 98, 7, 16, 45, 371, 373, 58, 262, 263, 264, 55, 36, 123}[t.Draw(15)], word(t)))
 		case 1: // a well-formed group
